@@ -78,9 +78,23 @@ def makeFreeOp (args : List String) : Option String :=
     pure (fTable nl (Taurex.MixLookup.freedActive act ina free) ++ " " ++
           fTable nl (Taurex.MixLookup.freedInactive act ina free))) args
 
+/-- `c03.mu nl active inactive masses` (masses = (name, mass) pairs; a name without an entry weighs 0) → the mean molecular
+    weight per layer of the published mixture -/
+def muOp (args : List String) : Option String :=
+  run (do
+    let nl ← nat
+    let act ← tableP
+    let ina ← tableP
+    let ms ← listOf (do
+      let nm ← tok
+      let m ← flt
+      pure (nm, m))
+    let mass : String → Float := fun n => ((ms.find? (fun p => p.1 == n)).map (·.2)).getD 0
+    pure (fList fF ((List.range nl).map (Taurex.MixLookup.muOf mass act ina)))) args
+
 def ops : List Op :=
   [("c03.sigma_abs", sigmaAbsOp), ("c03.sigma_cia", sigmaCiaOp), ("c03.sigma_scaled", sigmaScaledOp),
-   ("c03.gasmix", gasMixOp), ("c03.makefree", makeFreeOp)]
+   ("c03.gasmix", gasMixOp), ("c03.makefree", makeFreeOp), ("c03.mu", muOp)]
   ++ Taurex.Ops.C01.ops
 
 end Taurex.Ops.C03
